@@ -1040,16 +1040,17 @@ def origin_of(prog, mod, n, trace, sel=None):
     for tag, _kw, bound, kwsent in trace:
         if n in kwsent:
             holder = tag
+            if callable_of(prog, tag) is not None:
+                popped = read_in(tag, ("pop",))
+                if popped is not None:
+                    return popped  # consumed here; whatever travels on under that name is an explicit argument
             continue
         if n in bound:
-            popped = read_in(holder, ("pop",)) if holder is not None and callable_of(prog, holder) is not None else None
-            if popped is not None:
-                return popped
             p = inspect.signature(func_of(prog, mod, tag)).parameters[n]
             return {"by": tag, "ty": atoms_of(p.annotation), "dflt": dflt_tok(p.default)}
     if holder is None or callable_of(prog, holder) is None:
         return None
-    return read_in(holder, ("pop", "get"))
+    return read_in(holder, ("get",))
 
 
 # ---------------------------------------------------------------- the property on the real code
